@@ -7,6 +7,15 @@
 #include <asmjit/support/arena.h>
 #include <asmjit/support/support.h>
 
+#if defined(ASMJIT_VERIF)
+// Verification hook H1 - weak default (never fails), overridden by a strong definition in a verification harness.
+extern "C" __attribute__((__weak__)) int asmjit_verif_fault(int kind, size_t size) noexcept {
+  (void)kind;
+  (void)size;
+  return 0;
+}
+#endif
+
 ASMJIT_BEGIN_NAMESPACE
 
 // Arena - Globals
@@ -162,6 +171,12 @@ static ASMJIT_INLINE uint32_t Arena_get_unused_block_byte_count(Arena::ManagedBl
 }
 
 void* Arena::_alloc_oneshot(size_t size) noexcept {
+#if defined(ASMJIT_VERIF)
+  if (asmjit_verif_fault(1, size)) {
+    return nullptr;
+  }
+#endif
+
   // Must hold otherwise we would end up with an unaligned pointer in the Arena.
   ASMJIT_ASSERT(Support::is_aligned(size, Arena::kAlignment));
 
@@ -259,6 +274,12 @@ void* Arena::_alloc_oneshot(size_t size) noexcept {
 }
 
 void* Arena::_alloc_oneshot_zeroed(size_t size) noexcept {
+#if defined(ASMJIT_VERIF)
+  if (asmjit_verif_fault(2, size)) {
+    return nullptr;
+  }
+#endif
+
   ASMJIT_ASSERT(Support::is_aligned(size, Arena::kAlignment));
 
   void* p = alloc_oneshot(size);
@@ -312,6 +333,13 @@ char* Arena::sformat(const char* fmt, ...) noexcept {
 // =============================
 
 void* Arena::_alloc_reusable(size_t size, Out<size_t> allocated_size) noexcept {
+#if defined(ASMJIT_VERIF)
+  if (asmjit_verif_fault(3, size)) {
+    allocated_size = 0;
+    return nullptr;
+  }
+#endif
+
   // Use the memory pool only if the requested block has a reasonable size.
   size_t slot;
   if (_get_reusable_slot_index(size, Out(slot), allocated_size)) {
@@ -383,6 +411,13 @@ void* Arena::_alloc_reusable(size_t size, Out<size_t> allocated_size) noexcept {
 }
 
 void* Arena::_alloc_reusable_zeroed(size_t size, Out<size_t> allocated_size) noexcept {
+#if defined(ASMJIT_VERIF)
+  if (asmjit_verif_fault(4, size)) {
+    allocated_size = 0;
+    return nullptr;
+  }
+#endif
+
   void* p = _alloc_reusable(size, allocated_size);
   if (ASMJIT_UNLIKELY(!p)) {
     return p;
